@@ -24,7 +24,7 @@ ASSUMPTIONS = ["Redis and RabbitMQ are wire-level fakes", "virtual time; slack a
                "'completed' = a terminal disposition took effect at the broker; an actor that finished but whose ack was cut off and whose message went back is ordinary at-least-once redelivery",
                "process death = both wire directions cut and every task of the process cancelled; judged from server state only"]
 EVAL_COUNTER = "injections_judged"
-REQUIRED = ["injections_judged", "stop_injections", "death_injections", "limit_stops", "messages_classified", "inflight_at_injection", "phase_actor_body", "phase_broker_call", "recoveries_checked", "stops_with_open_health_connections"]
+REQUIRED = ["injections_judged", "stop_injections", "death_injections", "limit_stops", "messages_classified", "inflight_at_injection", "phase_actor_body", "phase_broker_call", "recoveries_checked", "stops_with_open_health_connections", "recoveries_with_a_foreign_long_running_message_in_flight"]
 CASE_TIMEOUT = 600
 SHARD_TIMEOUT = {"quick": 1200, "thorough": 3600}
 EXEC_TIMEOUT = 20.0
@@ -50,7 +50,7 @@ def gen_cases(tier, seed):
                 for part in range(parts):
                     # every second scenario: execution timeouts of a day and 20 s (recovery "not before" over days)
                     cases.append(dict(base, fault="death", graceful=3.0, sample=0.01 if tier == "quick" else 0.05, part=part, parts=parts,
-                                      exec_timeout=86420.0 if i % 2 == 1 else EXEC_TIMEOUT))
+                                      exec_timeout=86420.0 if i % 2 == 1 else EXEC_TIMEOUT, bystander=(kind == "redis" and part % 2 == 0)))
             # stop by message limit: the stop instant is set by completions, so vary M, durations and latency instead of the step
             for M in ((1, 2) if tier == "quick" else (1, 2, 3)):
                 cases.append(dict(base, fault="limit", graceful=rnd.choice([0.0, 0.5, 3.0]), M=M, sample=0, part=0, parts=1))
@@ -69,7 +69,7 @@ def gen_cases(tier, seed):
             # directed: a process dies while holding messages whose execution timeout is a day (and a week) plus 20 s
             for et in (86420.0, 604820.0):
                 for part in range(2):
-                    cases.append(dict(base, fault="death", graceful=3.0, sample=0.01, part=part, parts=2, exec_timeout=et))
+                    cases.append(dict(base, fault="death", graceful=3.0, sample=0.01, part=part, parts=2, exec_timeout=et, bystander=(part == 0)))
         # directed: every kind of disposition (ack, nack, requeue, result store) under an immediate forced cancellation
         jobs = [{"kind": "fail_nack", "d": 0.3}, {"kind": "ok", "d": 0.3}, {"kind": "fail_retry", "d": 0.3}, {"kind": "result", "d": 0.3}, {"kind": "fail_nack", "d": 0.0}]
         base = {"kind": kind, "jobs": jobs, "tl": 1000, "seed": rnd.randrange(10**6), "latency": None if kind == "mem" else 0.002}
@@ -123,6 +123,20 @@ async def scenario(loop, case, inject_step, info):
         r = w.router(retry_policy=lambda retry_number=1: timedelta(seconds=0.5))
         w.scripted_actor(r, "act")
         await w.conn.message_broker.queue_declare("default")
+        if case.get("bystander"):
+            # a healthy process elsewhere has been holding a message of another queue for a while; its own time limit (30 days)
+            # is far from over - and none of the dying worker's business
+            from repid.message import MessageCategory as _MC
+
+            by = w.rig.make_connection("bystander")
+            await by.connect()
+            await by.message_broker.queue_declare("other")
+            await w.job("act", "by0", {"do": "ok"}, queue="other", retries=0, timeout=timedelta(days=30), store_result=False).enqueue()
+            by_cons = by.message_broker.get_consumer("other", None, None, _MC.NORMAL)
+            await by_cons.start()
+            await asyncio.wait_for(by_cons.consume(), 5.0)
+            info["bystander_holds"] = True
+            await asyncio.sleep(2.2)
         ids = []
         for i, j in enumerate(case["jobs"]):
             id_ = f"j{i}"
@@ -258,7 +272,7 @@ async def scenario(loop, case, inject_step, info):
         if case["fault"] == "death" and inject_step is not None and injected:
             rec = {}
             info["recovery"] = rec
-            held_now = [i for i, v in info["snapshot"].items() if v == ["held"]]
+            held_now = [i for i, v in info["snapshot"].items() if v == ["held"] and i != "by0"]
             rec["held_after_death"] = held_now
             if kind == "redis":
                 from repid.message import MessageCategory
@@ -485,6 +499,10 @@ def run_case(case):
         rec = info.get("recovery")
         if rec is not None and case["kind"] == "redis":
             stats["recoveries_checked"] += 1
+            if info.get("bystander_holds"):
+                stats["recoveries_with_a_foreign_long_running_message_in_flight"] += 1
+                if rec["snapshot_after"].get("by0") != ["held"]:
+                    out.append(V("early_recovery", "redis", "death/bystander", f"death at step {k}: the message a healthy process has been holding for a while (time limit 30 days) is at {rec['snapshot_after'].get('by0')} after the recovery"))
             held = set(rec["held_after_death"])
             # "not before": the in-flight mark carries the time the message was taken; recovery is early only when it
             # happens before that time + execution timeout (whole-second marks: 1 s tolerance)
